@@ -8,7 +8,8 @@
               P:<n>                                                            next n bytes of the message in progress
         dest  d (driver) | u<k> (connection k) | m (missing name) | b (broadcast)
      D.<c>   c closes its socket          T.<d>   d ms pass
-   result per step:  <outputs>/<connections the bus closed>/<descriptors held>   or "!" (ill-formed event / fault)
+   result per step:  <outputs>/<connections the bus closed>/<descriptors held>   or "!" (ill-formed event, state unchanged)
+                     or "!!" (a well-formed event set the fault flag: never expected, see C15_fuel_suffices)
      outputs joined by '+' ('-' = none):  <rcpt>:M.<from>.<token>.<fds ','-joined or '-'>   <rcpt>:E.<error>.<token>   <rcpt>:D.<token>
    ledger <same arguments>: final received / closed (with reason) / kernel-dropped lists, for debugging *)
 open Model_fds
@@ -76,7 +77,7 @@ let run_hist (args : string list) : string =
           let before = live_ids !st in
           let (st', o) = step cf !st e in
           st := st';
-          if st'.st_fault then "!" else begin
+          if st'.st_fault then "!!" else begin
             let after = live_ids st' in
             let gone = List.filter (fun x -> not (List.mem x after)) before in
             let gone = (match e with EDisconnect c -> List.filter (fun x -> x <> c) gone | _ -> gone) in
